@@ -472,6 +472,9 @@ def symbol_traces(ctx, tier, target_cfgs):
             j["flush"] = True
             j["write"] = rnd.choice([100, 1000])
         jobs.append(j)
+    # two fixed jobs that contain every symbol kind whatever the seed (vacuity guard below)
+    jobs.append(symlib.roundtrip_job("sfix0", "lzma", {"preset": 6, "dict": 65536}, {"class": "text", "len": 3000, "seed": 3}, reads=[7, 0, 300]))
+    jobs.append(symlib.roundtrip_job("sfix1", "lzma2", {"preset": 6, "dict": 65536}, {"class": "mixed", "len": 3000, "seed": 5}, reads=[4096]))
     kinds = [0, 0, 0, 0]
     per_cfg = {}
     names = list(target_cfgs)
